@@ -1,7 +1,513 @@
-// Engine `conv`; filled in by a later step.
-use super::Script;
+// Engine `conv` (C10): one op = one trip of measurements from an outstation database to the master's
+// ReadHandler, inside one process, through the PRODUCTION code:
+//
+//   outstation::database::Database  (add / update2 / select_by_header / select_event_classes)
+//   -> write_response_headers / write_events_only   (RangeWriter, EventWriter, ToVariation, write_cto)
+//   -> app::parse::parser::HeaderCollection::parse  (FunctionCode::Response)
+//   -> master::extract::extract_measurements        (running CTO, From<GroupXVarY>, to_measurement)
+//   -> a recording ReadHandler
+//
+//   st <type> <selector> <n> { <index> <svar> <value> <flags> <time> } x n
+//        fresh database, the n points (class none), each updated once, then one READ selection:
+//        selector  c0               class 0 (g60v1, all objects)
+//                  g<G>v<V>         that static variation, qualifier 0x06 (V = 0: default variation)
+//                  g<G>v<V>:a-b     that variation, qualifier 0x01 range a..b
+//   ev <type> <selector> <n> { <index> <evar> <value> <flags> <time> } x n
+//        fresh database, one point per distinct index (class 1, event variation of its first
+//        occurrence), every entry is one forced event, in order, then
+//        selector  c1               select_event_classes(class 1) + write_events_only (unsolicited path)
+//                  r1               READ g60v2 all + write_response_headers
+//                  g<G>v<V>         READ that event variation, qualifier 0x06 (V = 0: default)
+//
+//   type:  bi dbi bos ctr fctr ai aos oct
+//   value: bi/bos 0|1, dbi 0..3, ctr/fctr decimal u32, ai/aos 16 hex digits (f64 bit pattern), oct hex
+//   flags: decimal octet        time:  n | s<ms> | u<ms>
+//
+// Observations per trip:
+//   raw <hex>                                    the object headers written by the outstation
+//   hdr <group> <var> <qualifier> <is_event> <has_flags>     one per ReadHandler callback
+//   m <type> <index> <value> <flags> <time>      one per measurement handed to the handler
+//   (or `parse-error` when the master's parser rejects the bytes)
+
+use super::{hex, unhex, Script};
+use crate::app::measurement::*;
+use crate::app::parse::options::ParseOptions;
+use crate::app::parse::parser::HeaderCollection;
+use crate::app::{ControlField, FunctionCode, Iin, ResponseFunction, ResponseHeader, Timestamp};
+use crate::master::{EventClasses, HeaderInfo, ReadHandler, ReadType};
+use crate::outstation::database::read::ReadHeader;
+use crate::outstation::database::*;
+use scursor::WriteCursor;
+
+fn num(s: &str) -> u64 {
+    s.parse::<u64>().expect("bad number")
+}
+
+fn gv(s: &str) -> (u8, u8) {
+    let s = s.strip_prefix('g').expect("variation token");
+    let (g, v) = s.split_once('v').expect("variation token");
+    (g.parse().unwrap(), v.parse().unwrap())
+}
+
+fn time(s: &str) -> Option<Time> {
+    if s == "n" {
+        None
+    } else if let Some(x) = s.strip_prefix('s') {
+        Some(Time::Synchronized(Timestamp::new(num(x))))
+    } else if let Some(x) = s.strip_prefix('u') {
+        Some(Time::Unsynchronized(Timestamp::new(num(x))))
+    } else {
+        panic!("bad time {}", s)
+    }
+}
+
+fn time_text(t: Option<Time>) -> String {
+    match t {
+        None => "n".to_string(),
+        Some(Time::Synchronized(x)) => format!("s{}", x.raw_value()),
+        Some(Time::Unsynchronized(x)) => format!("u{}", x.raw_value()),
+    }
+}
+
+fn f64_of(s: &str) -> f64 {
+    f64::from_bits(u64::from_str_radix(s, 16).expect("bad f64 bits"))
+}
+
+fn dbit(s: &str) -> DoubleBit {
+    match s {
+        "0" => DoubleBit::Intermediate,
+        "1" => DoubleBit::DeterminedOff,
+        "2" => DoubleBit::DeterminedOn,
+        "3" => DoubleBit::Indeterminate,
+        x => panic!("bad double bit {}", x),
+    }
+}
+
+fn s_bi(s: &str) -> StaticBinaryInputVariation {
+    match gv(s) {
+        (1, 1) => StaticBinaryInputVariation::Group1Var1,
+        (1, 2) => StaticBinaryInputVariation::Group1Var2,
+        _ => panic!("bad svar {}", s),
+    }
+}
+fn e_bi(s: &str) -> EventBinaryInputVariation {
+    match gv(s) {
+        (2, 1) => EventBinaryInputVariation::Group2Var1,
+        (2, 2) => EventBinaryInputVariation::Group2Var2,
+        (2, 3) => EventBinaryInputVariation::Group2Var3,
+        _ => panic!("bad evar {}", s),
+    }
+}
+fn s_dbi(s: &str) -> StaticDoubleBitBinaryInputVariation {
+    match gv(s) {
+        (3, 1) => StaticDoubleBitBinaryInputVariation::Group3Var1,
+        (3, 2) => StaticDoubleBitBinaryInputVariation::Group3Var2,
+        _ => panic!("bad svar {}", s),
+    }
+}
+fn e_dbi(s: &str) -> EventDoubleBitBinaryInputVariation {
+    match gv(s) {
+        (4, 1) => EventDoubleBitBinaryInputVariation::Group4Var1,
+        (4, 2) => EventDoubleBitBinaryInputVariation::Group4Var2,
+        (4, 3) => EventDoubleBitBinaryInputVariation::Group4Var3,
+        _ => panic!("bad evar {}", s),
+    }
+}
+fn s_bos(s: &str) -> StaticBinaryOutputStatusVariation {
+    match gv(s) {
+        (10, 1) => StaticBinaryOutputStatusVariation::Group10Var1,
+        (10, 2) => StaticBinaryOutputStatusVariation::Group10Var2,
+        _ => panic!("bad svar {}", s),
+    }
+}
+fn e_bos(s: &str) -> EventBinaryOutputStatusVariation {
+    match gv(s) {
+        (11, 1) => EventBinaryOutputStatusVariation::Group11Var1,
+        (11, 2) => EventBinaryOutputStatusVariation::Group11Var2,
+        _ => panic!("bad evar {}", s),
+    }
+}
+fn s_ctr(s: &str) -> StaticCounterVariation {
+    match gv(s) {
+        (20, 1) => StaticCounterVariation::Group20Var1,
+        (20, 2) => StaticCounterVariation::Group20Var2,
+        (20, 5) => StaticCounterVariation::Group20Var5,
+        (20, 6) => StaticCounterVariation::Group20Var6,
+        _ => panic!("bad svar {}", s),
+    }
+}
+fn e_ctr(s: &str) -> EventCounterVariation {
+    match gv(s) {
+        (22, 1) => EventCounterVariation::Group22Var1,
+        (22, 2) => EventCounterVariation::Group22Var2,
+        (22, 5) => EventCounterVariation::Group22Var5,
+        (22, 6) => EventCounterVariation::Group22Var6,
+        _ => panic!("bad evar {}", s),
+    }
+}
+fn s_fctr(s: &str) -> StaticFrozenCounterVariation {
+    match gv(s) {
+        (21, 1) => StaticFrozenCounterVariation::Group21Var1,
+        (21, 2) => StaticFrozenCounterVariation::Group21Var2,
+        (21, 5) => StaticFrozenCounterVariation::Group21Var5,
+        (21, 6) => StaticFrozenCounterVariation::Group21Var6,
+        (21, 9) => StaticFrozenCounterVariation::Group21Var9,
+        (21, 10) => StaticFrozenCounterVariation::Group21Var10,
+        _ => panic!("bad svar {}", s),
+    }
+}
+fn e_fctr(s: &str) -> EventFrozenCounterVariation {
+    match gv(s) {
+        (23, 1) => EventFrozenCounterVariation::Group23Var1,
+        (23, 2) => EventFrozenCounterVariation::Group23Var2,
+        (23, 5) => EventFrozenCounterVariation::Group23Var5,
+        (23, 6) => EventFrozenCounterVariation::Group23Var6,
+        _ => panic!("bad evar {}", s),
+    }
+}
+fn s_ai(s: &str) -> StaticAnalogInputVariation {
+    match gv(s) {
+        (30, 1) => StaticAnalogInputVariation::Group30Var1,
+        (30, 2) => StaticAnalogInputVariation::Group30Var2,
+        (30, 3) => StaticAnalogInputVariation::Group30Var3,
+        (30, 4) => StaticAnalogInputVariation::Group30Var4,
+        (30, 5) => StaticAnalogInputVariation::Group30Var5,
+        (30, 6) => StaticAnalogInputVariation::Group30Var6,
+        _ => panic!("bad svar {}", s),
+    }
+}
+fn e_ai(s: &str) -> EventAnalogInputVariation {
+    match gv(s) {
+        (32, 1) => EventAnalogInputVariation::Group32Var1,
+        (32, 2) => EventAnalogInputVariation::Group32Var2,
+        (32, 3) => EventAnalogInputVariation::Group32Var3,
+        (32, 4) => EventAnalogInputVariation::Group32Var4,
+        (32, 5) => EventAnalogInputVariation::Group32Var5,
+        (32, 6) => EventAnalogInputVariation::Group32Var6,
+        (32, 7) => EventAnalogInputVariation::Group32Var7,
+        (32, 8) => EventAnalogInputVariation::Group32Var8,
+        _ => panic!("bad evar {}", s),
+    }
+}
+fn s_aos(s: &str) -> StaticAnalogOutputStatusVariation {
+    match gv(s) {
+        (40, 1) => StaticAnalogOutputStatusVariation::Group40Var1,
+        (40, 2) => StaticAnalogOutputStatusVariation::Group40Var2,
+        (40, 3) => StaticAnalogOutputStatusVariation::Group40Var3,
+        (40, 4) => StaticAnalogOutputStatusVariation::Group40Var4,
+        _ => panic!("bad svar {}", s),
+    }
+}
+fn e_aos(s: &str) -> EventAnalogOutputStatusVariation {
+    match gv(s) {
+        (42, 1) => EventAnalogOutputStatusVariation::Group42Var1,
+        (42, 2) => EventAnalogOutputStatusVariation::Group42Var2,
+        (42, 3) => EventAnalogOutputStatusVariation::Group42Var3,
+        (42, 4) => EventAnalogOutputStatusVariation::Group42Var4,
+        (42, 5) => EventAnalogOutputStatusVariation::Group42Var5,
+        (42, 6) => EventAnalogOutputStatusVariation::Group42Var6,
+        (42, 7) => EventAnalogOutputStatusVariation::Group42Var7,
+        (42, 8) => EventAnalogOutputStatusVariation::Group42Var8,
+        _ => panic!("bad evar {}", s),
+    }
+}
+
+/// default variations used for the half of a point's configuration that a trip does not exercise
+const DEF_S: [(&str, &str); 7] = [
+    ("bi", "g1v2"),
+    ("dbi", "g3v2"),
+    ("bos", "g10v2"),
+    ("ctr", "g20v1"),
+    ("fctr", "g21v1"),
+    ("ai", "g30v1"),
+    ("aos", "g40v1"),
+];
+const DEF_E: [(&str, &str); 7] = [
+    ("bi", "g2v1"),
+    ("dbi", "g4v1"),
+    ("bos", "g11v1"),
+    ("ctr", "g22v1"),
+    ("fctr", "g23v1"),
+    ("ai", "g32v1"),
+    ("aos", "g42v1"),
+];
+
+fn lookup(table: &[(&'static str, &'static str)], ty: &str) -> &'static str {
+    table.iter().find(|x| x.0 == ty).map(|x| x.1).unwrap_or("-")
+}
+
+fn add_point(db: &mut Database, ty: &str, idx: u16, class: Option<EventClass>, svar: &str, evar: &str) -> bool {
+    match ty {
+        "bi" => db.add(idx, class, BinaryInputConfig { s_var: s_bi(svar), e_var: e_bi(evar) }),
+        "dbi" => db.add(idx, class, DoubleBitBinaryInputConfig { s_var: s_dbi(svar), e_var: e_dbi(evar) }),
+        "bos" => db.add(idx, class, BinaryOutputStatusConfig { s_var: s_bos(svar), e_var: e_bos(evar) }),
+        "ctr" => db.add(idx, class, CounterConfig { s_var: s_ctr(svar), e_var: e_ctr(evar), deadband: 0 }),
+        "fctr" => db.add(idx, class, FrozenCounterConfig { s_var: s_fctr(svar), e_var: e_fctr(evar), deadband: 0 }),
+        "ai" => db.add(idx, class, AnalogInputConfig { s_var: s_ai(svar), e_var: e_ai(evar), deadband: 0.0 }),
+        "aos" => db.add(idx, class, AnalogOutputStatusConfig { s_var: s_aos(svar), e_var: e_aos(evar), deadband: 0.0 }),
+        "oct" => db.add(idx, class, OctetStringConfig),
+        x => panic!("bad type {}", x),
+    }
+}
+
+fn update_point(db: &mut Database, ty: &str, idx: u16, v: &str, flags: u8, t: Option<Time>, opts: UpdateOptions) -> UpdateInfo {
+    let flags = Flags::new(flags);
+    match ty {
+        "bi" => db.update2(idx, &BinaryInput { value: v == "1", flags, time: t }, opts),
+        "dbi" => db.update2(idx, &DoubleBitBinaryInput { value: dbit(v), flags, time: t }, opts),
+        "bos" => db.update2(idx, &BinaryOutputStatus { value: v == "1", flags, time: t }, opts),
+        "ctr" => db.update2(idx, &Counter { value: num(v) as u32, flags, time: t }, opts),
+        "fctr" => db.update2(idx, &FrozenCounter { value: num(v) as u32, flags, time: t }, opts),
+        "ai" => db.update2(idx, &AnalogInput { value: f64_of(v), flags, time: t }, opts),
+        "aos" => db.update2(idx, &AnalogOutputStatus { value: f64_of(v), flags, time: t }, opts),
+        "oct" => db.update2(idx, &OctetString::new(&unhex(v)).expect("octet string"), opts),
+        x => panic!("bad type {}", x),
+    }
+}
+
+/// one object header of a READ request, as the master would send it
+fn request_header(g: u8, v: u8, range: Option<(u16, u16)>) -> Vec<u8> {
+    let mut out = vec![g, v];
+    match range {
+        None => out.push(0x06),
+        Some((a, b)) => {
+            out.push(0x01);
+            out.extend_from_slice(&a.to_le_bytes());
+            out.extend_from_slice(&b.to_le_bytes());
+        }
+    }
+    out
+}
+
+/// parse a request header with the crate's own parser, map it with `ReadHeader::get` and select
+fn select(db: &mut Database, bytes: &[u8], obs: &mut Vec<String>) -> bool {
+    match HeaderCollection::parse(ParseOptions::default(), FunctionCode::Read, bytes) {
+        Err(_) => {
+            obs.push("sel badreq".to_string());
+            false
+        }
+        Ok(headers) => {
+            let mut ok = true;
+            for header in headers.iter() {
+                match ReadHeader::get(&header) {
+                    None => {
+                        obs.push("sel unsupported".to_string());
+                        ok = false;
+                    }
+                    Some(x) => {
+                        let iin2 = db.inner.select_by_header(x);
+                        if iin2.value != 0 {
+                            obs.push(format!("sel iin2 {}", iin2.value));
+                        }
+                    }
+                }
+            }
+            ok
+        }
+    }
+}
+
+struct Recorder {
+    lines: Vec<String>,
+}
+
+impl Recorder {
+    fn hdr(&mut self, info: HeaderInfo) {
+        let (g, v) = info.variation.to_group_and_var();
+        self.lines.push(format!(
+            "hdr {} {} {} {} {}",
+            g,
+            v,
+            info.qualifier.as_u8(),
+            u8::from(info.is_event),
+            u8::from(info.has_flags)
+        ));
+    }
+}
+
+impl ReadHandler for Recorder {
+    fn handle_binary_input(&mut self, info: HeaderInfo, iter: &mut dyn Iterator<Item = (BinaryInput, u16)>) {
+        self.hdr(info);
+        for (x, i) in iter {
+            self.lines.push(format!("m bi {} {} {} {}", i, u8::from(x.value), x.flags.value, time_text(x.time)));
+        }
+    }
+    fn handle_double_bit_binary_input(&mut self, info: HeaderInfo, iter: &mut dyn Iterator<Item = (DoubleBitBinaryInput, u16)>) {
+        self.hdr(info);
+        for (x, i) in iter {
+            self.lines.push(format!("m dbi {} {} {} {}", i, x.value.to_byte(), x.flags.value, time_text(x.time)));
+        }
+    }
+    fn handle_binary_output_status(&mut self, info: HeaderInfo, iter: &mut dyn Iterator<Item = (BinaryOutputStatus, u16)>) {
+        self.hdr(info);
+        for (x, i) in iter {
+            self.lines.push(format!("m bos {} {} {} {}", i, u8::from(x.value), x.flags.value, time_text(x.time)));
+        }
+    }
+    fn handle_counter(&mut self, info: HeaderInfo, iter: &mut dyn Iterator<Item = (Counter, u16)>) {
+        self.hdr(info);
+        for (x, i) in iter {
+            self.lines.push(format!("m ctr {} {} {} {}", i, x.value, x.flags.value, time_text(x.time)));
+        }
+    }
+    fn handle_frozen_counter(&mut self, info: HeaderInfo, iter: &mut dyn Iterator<Item = (FrozenCounter, u16)>) {
+        self.hdr(info);
+        for (x, i) in iter {
+            self.lines.push(format!("m fctr {} {} {} {}", i, x.value, x.flags.value, time_text(x.time)));
+        }
+    }
+    fn handle_analog_input(&mut self, info: HeaderInfo, iter: &mut dyn Iterator<Item = (AnalogInput, u16)>) {
+        self.hdr(info);
+        for (x, i) in iter {
+            self.lines.push(format!("m ai {} {:016x} {} {}", i, x.value.to_bits(), x.flags.value, time_text(x.time)));
+        }
+    }
+    fn handle_frozen_analog_input(&mut self, info: HeaderInfo, iter: &mut dyn Iterator<Item = (FrozenAnalogInput, u16)>) {
+        self.hdr(info);
+        for (x, i) in iter {
+            self.lines.push(format!("m fai {} {:016x} {} {}", i, x.value.to_bits(), x.flags.value, time_text(x.time)));
+        }
+    }
+    fn handle_analog_output_status(&mut self, info: HeaderInfo, iter: &mut dyn Iterator<Item = (AnalogOutputStatus, u16)>) {
+        self.hdr(info);
+        for (x, i) in iter {
+            self.lines.push(format!("m aos {} {:016x} {} {}", i, x.value.to_bits(), x.flags.value, time_text(x.time)));
+        }
+    }
+    fn handle_octet_string<'a>(&mut self, info: HeaderInfo, iter: &'a mut dyn Iterator<Item = (&'a [u8], u16)>) {
+        self.hdr(info);
+        for (x, i) in iter {
+            self.lines.push(format!("m oct {} {} 0 n", i, hex(x)));
+        }
+    }
+}
+
+/// the master's half of the trip: parse the object headers of a response and extract
+async fn master_side(bytes: &[u8], unsolicited: bool, obs: &mut Vec<String>) {
+    obs.push(format!("raw {}", hex(bytes)));
+    let (read_type, func) = if unsolicited {
+        (ReadType::Unsolicited, ResponseFunction::UnsolicitedResponse)
+    } else {
+        (ReadType::SinglePoll, ResponseFunction::Response)
+    };
+    let fc = if unsolicited {
+        FunctionCode::UnsolicitedResponse
+    } else {
+        FunctionCode::Response
+    };
+    match HeaderCollection::parse(ParseOptions::default(), fc, bytes) {
+        Err(_) => obs.push("parse-error".to_string()),
+        Ok(objects) => {
+            let header = ResponseHeader::new(ControlField::from(0xC0), func, Iin::default());
+            let mut rec = Recorder { lines: Vec::new() };
+            crate::master::extract::extract_measurements(read_type, header, objects, &mut rec).await;
+            obs.append(&mut rec.lines);
+        }
+    }
+}
+
+const BUF: usize = 16384;
+
+fn parse_selector(s: &str) -> (u8, u8, Option<(u16, u16)>) {
+    match s.split_once(':') {
+        None => {
+            let (g, v) = gv(s);
+            (g, v, None)
+        }
+        Some((a, r)) => {
+            let (g, v) = gv(a);
+            let (lo, hi) = r.split_once('-').expect("range");
+            (g, v, Some((num(lo) as u16, num(hi) as u16)))
+        }
+    }
+}
 
 pub(crate) async fn run_conv(script: &Script, obs: &mut Vec<String>) {
-    let _ = script;
-    obs.push("unimplemented".to_string());
+    for op in &script.ops {
+        let kind = op[0].as_str();
+        let ty = op[1].as_str();
+        let sel = op[2].as_str();
+        let n = num(&op[3]) as usize;
+        assert!(op.len() == 4 + 5 * n, "entry count does not match");
+        let entries: Vec<&[String]> = (0..n).map(|k| &op[4 + 5 * k..9 + 5 * k]).collect();
+        match kind {
+            "st" => {
+                let mut db = Database::new(None, ClassZeroConfig::new(true, true, true, true, true, true, true, true), EventBufferConfig::no_events());
+                for e in &entries {
+                    let idx = num(&e[0]) as u16;
+                    if !add_point(&mut db, ty, idx, None, &e[1], lookup(&DEF_E, ty)) {
+                        obs.push(format!("add-failed {}", idx));
+                        continue;
+                    }
+                    let info = update_point(&mut db, ty, idx, &e[2], num(&e[3]) as u8, time(&e[4]), UpdateOptions::detect_event());
+                    if info != UpdateInfo::NoEvent {
+                        obs.push(format!("update {:?}", info).replace(' ', "_"));
+                    }
+                }
+                let req = if sel == "c0" {
+                    request_header(60, 1, None)
+                } else {
+                    let (g, v, r) = parse_selector(sel);
+                    request_header(g, v, r)
+                };
+                select(&mut db, &req, obs);
+                let mut buf = vec![0u8; BUF];
+                let mut cursor = WriteCursor::new(&mut buf);
+                let info = db.inner.write_response_headers(&mut cursor);
+                if !info.complete {
+                    obs.push("incomplete".to_string());
+                }
+                let bytes = cursor.written().to_vec();
+                master_side(&bytes, false, obs).await;
+            }
+            "ev" => {
+                let max = (n as u16).max(1);
+                let mut db = Database::new(None, ClassZeroConfig::new(true, true, true, true, true, true, true, true), EventBufferConfig::all_types(max));
+                let mut seen: Vec<u16> = Vec::new();
+                for e in &entries {
+                    let idx = num(&e[0]) as u16;
+                    if !seen.contains(&idx) {
+                        seen.push(idx);
+                        if !add_point(&mut db, ty, idx, Some(EventClass::Class1), lookup(&DEF_S, ty), &e[1]) {
+                            obs.push(format!("add-failed {}", idx));
+                        }
+                    }
+                    let info = update_point(&mut db, ty, idx, &e[2], num(&e[3]) as u8, time(&e[4]), UpdateOptions::new(true, EventMode::Force));
+                    match info {
+                        UpdateInfo::Created(_) => {}
+                        x => obs.push(format!("update {:?}", x).replace(' ', "_")),
+                    }
+                }
+                let mut buf = vec![0u8; BUF];
+                let mut cursor = WriteCursor::new(&mut buf);
+                let unsolicited = sel == "c1";
+                if unsolicited {
+                    let k = db.inner.select_event_classes(EventClasses::new(true, false, false));
+                    if k != n {
+                        obs.push(format!("selected {}", k));
+                    }
+                    let w = db.inner.write_events_only(&mut cursor);
+                    if w != n {
+                        obs.push(format!("written {}", w));
+                    }
+                } else {
+                    let req = if sel == "r1" {
+                        request_header(60, 2, None)
+                    } else {
+                        let (g, v, r) = parse_selector(sel);
+                        request_header(g, v, r)
+                    };
+                    select(&mut db, &req, obs);
+                    let info = db.inner.write_response_headers(&mut cursor);
+                    if !info.complete {
+                        obs.push("incomplete".to_string());
+                    }
+                }
+                let bytes = cursor.written().to_vec();
+                master_side(&bytes, unsolicited, obs).await;
+            }
+            x => panic!("bad op {}", x),
+        }
+    }
+    obs.push("end".to_string());
 }
